@@ -1724,11 +1724,30 @@ func (sc *serverConn) dispatchHandler(strm *Stream) {
 				ctx.Response.SetStatusCode(fasthttp.StatusInternalServerError)
 			}
 
+			// The loop that takes the reports may be gone. The channel has room
+			// all the same, so when both are possible the one that nobody
+			// will ever read must not be the one select happens to pick.
 			select {
-			case sc.handlerDone <- strm:
 			case <-sc.handlerStop:
 				// Nobody is left to send the response, or to close a body
 				// stream the handler put in it.
+				_ = ctx.Response.CloseBodyStream()
+
+				return
+			default:
+			}
+
+			select {
+			case sc.handlerDone <- strm:
+				// The loop may have stopped, and looked at the channel for the
+				// last time, between the test above and this send. What is in
+				// the channel then is nobody's but ours.
+				select {
+				case <-sc.handlerStop:
+					sc.dropReported()
+				default:
+				}
+			case <-sc.handlerStop:
 				_ = ctx.Response.CloseBodyStream()
 			}
 		}()
@@ -1820,6 +1839,23 @@ func (sc *serverConn) refillPending(strm *Stream) error {
 	}
 
 	return nil
+}
+
+// dropReported closes the body streams of the responses reported on handlerDone
+// that nobody has taken. It is for when the stream loop is gone: whoever finds
+// that out after reporting calls it, so that a report which went into the
+// channel behind the loop's back is not left there with its body stream open.
+func (sc *serverConn) dropReported() {
+	for {
+		select {
+		case strm := <-sc.handlerDone:
+			if strm.ctx != nil {
+				_ = strm.ctx.Response.CloseBodyStream()
+			}
+		default:
+			return
+		}
+	}
 }
 
 // dropResponse closes the body stream of a response that will not be sent. The
